@@ -6,7 +6,9 @@ use std::panic;
 
 mod c02;
 mod c03;
+mod c03r;
 mod c04;
+mod c06;
 mod c07;
 mod c08;
 mod c10;
@@ -30,6 +32,8 @@ fn rerun(w: &Value) -> Option<Outcome> {
         "c19_span" => Some(c19::run_span(w["input"]["text"].as_str()?, w["input"]["start"].as_u64()? as usize, w["input"]["end"].as_u64()? as usize)),
         "c02_lr1" => Some(c02::run(w["input"]["grammar"].as_str()?)),
         "c07_recover" => Some(c07::run(w["input"]["grammar"].as_str()?, w["input"]["input"].as_str()?, w["input"]["cost"].as_u64()? as u8)),
+        "c03_cells" => Some(c03r::run_seed(w["input"]["seed"].as_u64()?)),
+        "c06_repairs" => Some(c06::run(w["input"]["grammar"].as_str()?, w["input"]["input"].as_str()?)),
         "c04_graph" => Some(c04::run(w["input"]["grammar"].as_str()?)),
         "c12_header" => Some(c12::run_header(w["input"]["text"].as_str()?)),
         "c12_yacc" => Some(c12::run_yacc(w["input"]["text"].as_str()?)),
@@ -51,10 +55,11 @@ fn rerun(w: &Value) -> Option<Outcome> {
 
 fn search(unit: &str, tag: &str, tier: &str) -> Option<Value> {
     match unit {
-        "c19_queries" | "c19_cols" => c19::search(tag, tier),
+        "c19_queries" | "c19_cols" | "c19_wrap" => c19::search(tag, tier),
         "c02_weakly" => c02::search(tag, tier),
         "c04_pager" | "c02_itemset" => c04::search(tag, tier).or_else(|| c02::search(tag, tier)),
-        "c07_lr" | "c06_moves" | "c06_dijkstra" => c07::search(tag, tier),
+        "c07_lr" => c07::search(tag, tier),
+        "c06_moves" | "c06_dijkstra" | "c06_cpct" | "c06_rank" | "c05_apply" => c06::search(tag, tier).or_else(|| c07::search(tag, tier)),
         "c12_header" => c12::search(tag, tier),
         "c12_lex" => c12::search_lex(tier),
         "c12_yacc" => c12::search_yacc(tier),
@@ -64,6 +69,7 @@ fn search(unit: &str, tag: &str, tier: &str) -> Option<Value> {
         "c11_decl" | "c11_lex" | "c09_lexer" => c11::search(tag, tier),
         "c10_grammar" | "c10_validate" => if tag.starts_with("C15") { c15::search(tag, tier) } else { c10::search(tag, tier) },
         "c03_expect" => c03::search(tag, tier),
+        "c03_resolve" | "c03_prodprec" => c03r::search(tag, tier),
         "c17_firsts" | "c17_follows" | "c17_haspath" => c17::search(unit, tag, tier),
         "c16_new" | "c16_codec" => c16::search(tag, tier),
         "c20_grammar" => c20::search(tag, tier),
@@ -83,6 +89,7 @@ fn main() {
         }
         return;
     }
+    if args.len() >= 4 && args[1] == "--trace" { println!("{}", c06::trace(&args[2].replace("\\n", "\n"), &args[3])); return; }
     if args.len() < 3 {
         eprintln!("usage: replay <unit> <tag> [tier]");
         std::process::exit(2);
